@@ -43,7 +43,7 @@ SPEC = dict(
     rule=("cases = sources the real parser accepts, handed to the model as the AST the real parser built: corpus of past "
           "failures; every infix operator (20) / prefix operator (3) under every other on either side with and without "
           "parentheses over three atom sets (exhaustive depth 2); every statement kind nested in every other (pairs; triples "
-          "sampled); all sequences of <=3 (quick) / <=4 (thorough) atoms from {\\\", \", ', \\\\, \\n, newline, {{, }}, é, a, "
+          "sampled); statements starting with a sign / parenthesis after 19 kinds of statement ends; all sequences of <=3 (quick) / <=4 (thorough) atoms from {\\\", \", ', \\\\, \\n, newline, {{, }}, é, a, "
           "\\u005c} in the four literal forms; lists/maps with threshold-1/=/+1 elements in 12 contexts; one comment / blank "
           "line before every token of 12 base programs (8 comment shapes) and random multiple insertions; random deeper "
           "expressions and random programs. Compared: printed text byte for byte (model printer vs PrettyPrint), Go's own "
@@ -56,7 +56,9 @@ SPEC = dict(
         "theorems are about the expression-level model and the string-literal model; statements, comments and blank lines are covered by the correspondence run only",
     ],
     assumptions=[
-        "for the structurally defined classes newline-inside-statement (a comment or blank line in front of a token that does not start its statement, any # comment, a bare return used as an operand) and layout-not-idempotent (any comment, blank line before an infix operator, mutex/sink followed by a statement) no rt resp. idem verdict is predicted; Go's observations are only counted (input_distribution)",
+        "no rt verdict is predicted for the structurally defined class newline-inside-statement: a /* */ comment in front of a token that does not start its statement, a blank line directly behind the keyword of a return statement, a bare return used as an operand, a # comment unless it sits on an identifier/number leaf and is printed directly behind that token at the end of a line",
+        "no idem verdict is predicted for the class layout-not-idempotent: the class above, any /* */ comment, a blank line in front of a token that does not start its statement or in front of an infix operator, a mutex/sink statement followed by a statement without a blank line before it",
+        "both classes are computed independently by the harness (Go AST) and the driver (payload AST); Go's real outcomes inside the classes are counted in input_distribution; outside the classes rt=ok idem=ok is demanded",
     ],
     decode=decode,
 )
@@ -72,7 +74,7 @@ META = dict(
                 "only (text identical to the model printer; Go round trip)."),
     level_note=("Trusted: Lean kernel + propext/Classical.choice/Quot.sound; the extractor; the harness' tree equality. "
                 "Known deviations with classifiers: raw-string-kind, mul-right-brackets, stmt-starts-with-sign, "
-                "if-true-else-duplicated, newline-inside-statement, layout-not-idempotent."),
+                "newline-inside-statement, layout-not-idempotent."),
 )
 
 
